@@ -7,8 +7,17 @@ extern "C" {
 #include <ufw/register-table.h>
 }
 
+extern "C" {
+extern RegisterArea regsim_macro_areas[]; extern RegisterEntry regsim_macro_entries[]; extern char regsim_macro_user[];
+extern const unsigned regsim_macro_nareas, regsim_macro_nentries;
+bool regsim_macro_cb(const RegisterEntry *, RegisterValue);
+RegisterAccess regsim_macro_read(const RegisterArea *, RegisterAtom *, RegisterOffset, RegisterOffset);
+RegisterAccess regsim_macro_write(RegisterArea *, const RegisterAtom *, RegisterOffset, RegisterOffset);
+}
+
 namespace {
 using namespace regm;
+#include "regmacros.inc"
 
 // Octets of a value union beyond the member that belongs to its type carry no meaning (a caller may re-use an object that held a
 // wider value before): they are filled with the plan's "dirt" octet, so that nothing can come to depend on them being zero.
@@ -62,6 +71,7 @@ struct Sim {
     std::vector<std::vector<uint16_t>> cbstore;         // callback-backed areas
     uint64_t cb_reads = 0, cb_writes = 0, cb_writes_op = 0;
     bool cb_oob = false;
+    bool macro = false;   // the library objects are copies of the table written with the header's macros (sim/regmacros.c)
     bool lift = false; uint32_t shift = 0;   // the library sees every address of the description moved up by 'shift' (see build)
     uint32_t up(uint32_t a) const { return a + shift; }
     RegisterAccess down(RegisterAccess a) const { if (a.code != REG_ACCESS_SUCCESS) a.address -= shift; return a; }
@@ -126,6 +136,7 @@ struct Sim {
         }
         areas = (RegisterArea *)calloc(na + 1, sizeof(RegisterArea));
         entries = (RegisterEntry *)calloc(nr + 1, sizeof(RegisterEntry));
+        if (macro && na == regsim_macro_nareas && nr == regsim_macro_nentries) { build_from_macros(fresh_storage, keep_flags, old_flags); return; }
         if (fresh_storage) { mem.clear(); mem.resize(na); cbstore.assign(na, {}); }
         for (size_t i = 0; i < na; ++i) {
             const AreaSpec &a = spec.areas[i];
@@ -162,6 +173,39 @@ struct Sim {
         if (keep_flags) tbl.flags = old_flags;   // the same table object whose description was edited: its state stays
         register_make_bigendian(&tbl, spec.be);
         g_sim = this;
+    }
+    void build_from_macros(bool fresh_storage, bool keep_flags, uint16_t old_flags) {
+        const size_t na = spec.areas.size(), nr = spec.regs.size();
+        memcpy(areas, regsim_macro_areas, (na + 1) * sizeof(RegisterArea));
+        memcpy(entries, regsim_macro_entries, (nr + 1) * sizeof(RegisterEntry));
+        if (fresh_storage) { mem.clear(); mem.resize(na); cbstore.assign(na, {}); }
+        for (size_t i = 0; i < na; ++i) {
+            const AreaSpec &a = spec.areas[i]; RegisterArea &A = areas[i];
+            if (A.base != a.base || A.size != a.size || A.flags != (REG_AF_READABLE | REG_AF_WRITEABLE) || (a.mem && (A.mem == nullptr || A.read != reg_mem_read || A.write != reg_mem_write)) || (!a.mem && (A.mem != nullptr || A.read != regsim_macro_read || A.write != regsim_macro_write)))
+                c.fail("macro.area", "area %zu written with the header's area macro does not carry the fields given to the macro", i);
+            if (a.mem) { if (fresh_storage) mem[i].reset(new GuardedBlock(a.size * 2)); A.mem = (RegisterAtom *)mem[i]->p; }
+            else { if (fresh_storage) { cbstore[i].resize(a.size); for (size_t w = 0; w < a.size; ++w) cbstore[i][w] = (uint16_t)(0x5a5a ^ (w * 0x1234 + i)); } A.read = cb_read; A.write = cb_write; }
+        }
+        for (size_t i = 0; i < nr; ++i) {
+            RegisterEntry &E = entries[i];
+            void *want_user = MACRO_REGS[i].x ? (void *)&regsim_macro_user[i] : nullptr;
+            if (E.user != want_user) c.fail("macro.user", "register %zu: the user pointer is not what the macro was given", i);
+            if (E.check.type == REGV_TYPE_CALLBACK && E.check.arg.cb != regsim_macro_cb) c.fail("macro.validator", "register %zu: the validator is not the function the macro was given", i);
+            if (E.check.type == REGV_TYPE_CALLBACK) E.check.arg.cb = cb_validate;
+            E.user = (void *)&spec.regs[i];
+        }
+        if (entries[nr].type != REG_TYPE_INVALID) c.fail("macro.end", "REGISTER_ENTRY_END is not recognisable as the end of the entries");
+        memset(&tbl, 0, sizeof tbl);
+        tbl.area = areas; tbl.entry = entries;
+        if (keep_flags) tbl.flags = old_flags;
+        register_make_bigendian(&tbl, spec.be);
+        g_sim = this;
+    }
+    static TableSpec macro_spec(bool be) {
+        TableSpec t; t.be = be;
+        for (auto &a : MACRO_AREAS) { AreaSpec s; s.base = a.base; s.size = a.size; s.mem = a.mem != 0; s.flags = a.flags; s.has_write = a.has_write != 0; t.areas.push_back(s); }
+        for (auto &r : MACRO_REGS) { RegSpec g; g.type = r.type; g.addr = r.addr; g.ck = r.ck; g.a = r.a; g.b = r.b; g.rule = r.rule; g.def = r.def; t.regs.push_back(g); }
+        return t;
     }
     uint16_t *actual(size_t ai) { return spec.areas[ai].mem ? (uint16_t *)mem[ai]->p : cbstore[ai].data(); }
     void sync_model_from_actual() {
@@ -204,15 +248,15 @@ struct RegHarness : Harness {
     }
     std::vector<std::string> probes(const std::string &p) const override {
         if (p == "C01") return {"handle_eq_entries", "handle_beyond", "float_nan", "float_inf", "float_subnormal", "float_negative_zero", "type_mismatch_refused",
-                                "constraint_refused", "always_fail_refused", "set_accepted", "unsafe_bypasses_constraint", "callback_area_set", "get_undecodable_storage", "big_endian_table", "sanitise_left_through_error_path", "first_init_failed_then_retried", "value_objects_with_stale_octets", "table_ends_at_top_of_address_space", "area_wider_than_64k_words"};
+                                "constraint_refused", "always_fail_refused", "set_accepted", "unsafe_bypasses_constraint", "callback_area_set", "get_undecodable_storage", "big_endian_table", "sanitise_left_through_error_path", "first_init_failed_then_retried", "value_objects_with_stale_octets", "table_written_with_header_macros", "table_ends_at_top_of_address_space", "area_wider_than_64k_words"};
         if (p == "C02") return {"write_inside_64bit_register", "partial_overlap_violates_constraint", "block_spans_two_areas", "block_into_readonly", "block_into_hole",
-                                "block_write_accepted", "block_decode_failure", "zero_length_write", "readonly_not_at_request_start", "reinit_after_registers_removed", "value_objects_with_stale_octets", "table_ends_at_top_of_address_space", "area_wider_than_64k_words", "request_ends_at_last_address"};
+                                "block_write_accepted", "block_decode_failure", "zero_length_write", "readonly_not_at_request_start", "reinit_after_registers_removed", "value_objects_with_stale_octets", "table_written_with_header_macros", "table_ends_at_top_of_address_space", "area_wider_than_64k_words", "request_ends_at_last_address"};
         if (p == "C03") return {"read_write_only_area_mid_area", "read_spans_two_areas", "read_into_hole", "zero_length_read", "iteration_starts_in_gap", "iteration_starts_mid_register",
-                                "iteration_stopped_by_callback", "iteration_negative_callback", "iteration_visits_several", "reinit_after_registers_removed", "value_objects_with_stale_octets", "table_ends_at_top_of_address_space", "area_wider_than_64k_words", "request_ends_at_last_address"};
+                                "iteration_stopped_by_callback", "iteration_negative_callback", "iteration_visits_several", "reinit_after_registers_removed", "value_objects_with_stale_octets", "table_written_with_header_macros", "table_ends_at_top_of_address_space", "area_wider_than_64k_words", "request_ends_at_last_address"};
         if (p == "C04") return {"defect_no_areas", "defect_areas_swapped", "defect_area_overlap", "defect_regs_swapped", "defect_reg_overlap", "defect_reg_straddles_area_end",
-                                "defect_reg_in_hole", "defect_bad_default", "wellformed_accepted", "restart_over_surviving_callback_storage", "ops_report_uninitialised", "empty_area_between_populated", "reinit_of_initialised_table_rejected", "reinit_after_registers_removed", "value_objects_with_stale_octets", "table_ends_at_top_of_address_space", "area_wider_than_64k_words"};
+                                "defect_reg_in_hole", "defect_bad_default", "wellformed_accepted", "restart_over_surviving_callback_storage", "ops_report_uninitialised", "empty_area_between_populated", "reinit_of_initialised_table_rejected", "reinit_after_registers_removed", "value_objects_with_stale_octets", "table_written_with_header_macros", "table_ends_at_top_of_address_space", "area_wider_than_64k_words"};
         return {"invariant_checked_ops", "refused_op_left_storage_unchanged", "bit_set_exact", "bit_clear_exact", "bit_op_refused_signed_or_float", "sanitise_reset_some_kept_some",
-                "corrupt_then_sanitise", "block_write_refused_by_constraint", "sanitise_left_through_error_path", "sanitise_with_io_error_kept_valid_registers", "reinit_after_registers_removed", "value_objects_with_stale_octets", "table_ends_at_top_of_address_space", "area_wider_than_64k_words", "request_ends_at_last_address"};
+                "corrupt_then_sanitise", "block_write_refused_by_constraint", "sanitise_left_through_error_path", "sanitise_with_io_error_kept_valid_registers", "reinit_after_registers_removed", "value_objects_with_stale_octets", "table_written_with_header_macros", "table_ends_at_top_of_address_space", "area_wider_than_64k_words", "request_ends_at_last_address"};
     }
     Json describe(const std::string &p) const override {
         Json d = Json::obj();
@@ -466,6 +510,8 @@ struct RegHarness : Harness {
     Json gen(const std::string &prop, Rng &r, const Tier &t, uint64_t) override {
         Json p = Json::obj();
         TableSpec ts = gen_table(r, prop);
+        bool macro = prop != "C04" && r.chance(1, 12);   // the table written with the header's REG_* / area macros (every macro once)
+        if (macro) ts = Sim::macro_spec(r.chance(1, 2));
         std::vector<std::string> kinds;
         if (prop == "C01") kinds = {"set", "set", "set", "set", "set_unsafe", "get", "get", "default", "corrupt", "sanitise_any"};
         else if (prop == "C02") kinds = {"bw", "bw", "bw", "bw", "bw", "bw", "corrupt", "touchcheck", "reedit"};
@@ -476,10 +522,12 @@ struct RegHarness : Harness {
             // perturb the description by at most one defect
             int defect = r.chance(1, 3) ? -1 : (int)r.below(9);
             p["defect"] = defect;
+            if (defect == -1 && r.chance(1, 8)) { macro = true; ts = Sim::macro_spec(r.chance(1, 2)); }
             apply_defect(ts, defect, r);
         }
         if (prop != "C04" && r.chance(1, 5)) p["init_fault"] = (long long)r.below(8);
-        if (r.chance(1, 12)) p["lift"] = 1;
+        if (macro) p["macro"] = 1;
+        else if (r.chance(1, 12)) p["lift"] = 1;
         { static const int DIRT[] = {0, 0, 0, 0xff, 0xa5, 0x80, 0x01, 0x7f}; p["dirt"] = DIRT[r.below(8)]; p["dirt_tbl"] = r.chance(1, 2) ? 0 : DIRT[r.below(8)]; }
         p["table"] = spec_json(ts);
         Json ops = Json::arr();
@@ -497,7 +545,9 @@ struct RegHarness : Harness {
         S.spec = spec_from(plan.get("table"));
         const std::string &P = c.prop;
         for (auto &a : S.spec.areas) if (a.size > 0x10000u) { COUNT("probe.area_wider_than_64k_words"); break; }
-        S.lift = plan.geti("lift") != 0;
+        S.macro = plan.geti("macro") != 0;
+        if (S.macro) { S.spec = Sim::macro_spec(plan.get("table").geti("be") != 0); COUNT("probe.table_written_with_header_macros"); }
+        S.lift = !S.macro && plan.geti("lift") != 0;
         if (S.lift) COUNT("probe.table_ends_at_top_of_address_space");
         g_dirt = (uint8_t)(plan.geti("dirt") & 0xff); g_dirt_tbl = (uint8_t)(plan.geti("dirt_tbl") & 0xff);
         if (g_dirt != g_dirt_tbl) COUNT("probe.value_objects_with_stale_octets");
@@ -781,7 +831,7 @@ struct RegHarness : Harness {
             else edited.regs.erase(edited.regs.begin() + (long)r2.below(edited.regs.size()));
             // the library's arrays are edited in place: same table object, same area array (its recorded register runs stay as they were)
             std::vector<RegisterArea> old_areas(S.areas, S.areas + S.spec.areas.size());
-            S.spec = edited;
+            S.spec = edited; S.macro = false;
             S.build(false, true);
             for (size_t i = 0; i < S.spec.areas.size() && i < old_areas.size(); ++i) S.areas[i].entry = old_areas[i].entry;
             std::vector<std::vector<uint16_t>> cb_before = S.cbstore;
@@ -798,7 +848,7 @@ struct RegHarness : Harness {
             Rng r2((uint64_t)o.geti("salt") * 2654435761ULL + 17);
             int d = (int)(o.geti("d") % 9); if (d < 0) d = 0;
             TableSpec edited = S.spec; apply_defect(edited, d, r2);
-            S.spec = edited;
+            S.spec = edited; S.macro = false;
             S.build(true, true);
             std::vector<std::vector<uint16_t>> cb_before = S.cbstore;
             RegisterInit ri = register_init(&S.tbl);
@@ -1016,6 +1066,10 @@ struct RegHarness : Harness {
 };
 
 }  // namespace
+
+extern "C" bool regsim_macro_cb(const RegisterEntry *e, RegisterValue v) { return Sim::cb_validate(e, v); }
+extern "C" RegisterAccess regsim_macro_read(const RegisterArea *a, RegisterAtom *d, RegisterOffset o, RegisterOffset n) { return Sim::cb_read(a, d, o, n); }
+extern "C" RegisterAccess regsim_macro_write(RegisterArea *a, const RegisterAtom *s, RegisterOffset o, RegisterOffset n) { return Sim::cb_write(a, s, o, n); }
 
 int main(int argc, char **argv) {
     RegHarness h;
